@@ -180,20 +180,12 @@ def run(tier, seed):
 
     # ---- TLC (two modules) and the two builds, concurrently
     fams = L.TIER_FAMILIES[tier]
-    import pickle
-    devc = os.environ.get("C06_DEVCACHE")
-    if devc and os.path.exists(devc + "/%s_%d.pkl" % (tier, seed)):
-        fp, xr = pickle.load(open(devc + "/%s_%d.pkl" % (tier, seed), "rb"))
-        builds = core.build_many([core.BuildSpec("c06parse", PARSE_SRC), core.BuildSpec("c06ops", ops_source())], None, workers or 2)
-    else:
-      with concurrent.futures.ThreadPoolExecutor(max_workers=3) as ex:
+    with concurrent.futures.ThreadPoolExecutor(max_workers=3) as ex:
         f_fp = ex.submit(core.tlc_or_die, "FloatParse", cfg="FloatParse_" + tier, env={"RECORDS": recf},
                          timeout=1500 if tier == "quick" else 6000, workers=workers, heap="6g")
         f_xr = ex.submit(core.tlc_or_die, "XReal", cfg="XReal_q" if tier == "quick" else "XReal_t", timeout=1500, workers=workers)
         f_b = ex.submit(core.build_many, [core.BuildSpec("c06parse", PARSE_SRC), core.BuildSpec("c06ops", ops_source())], None, workers or 2)
         fp, xr, builds = f_fp.result(), f_xr.result(), f_b.result()
-      if devc:
-        pickle.dump((fp, xr), open(devc + "/%s_%d.pkl" % (tier, seed), "wb"))
     cov["tlc"].append(dict(fp.summary(), module="FloatParse", config=tier))
     cov["tlc"].append(dict(xr.summary(), module="XReal", config="q" if tier == "quick" else "t"))
     for b in builds:
